@@ -80,18 +80,164 @@ type Kern struct {
 	Subs    []KernSub `json:"subs"`
 }
 
+// CmSub is one subtable of the cmap table: platform and encoding id, whether it can be decoded,
+// how it is stored ("f4", "f12", or the name of an undecodable form, see BadKinds; "bad" = let
+// Realise pick one) and the mapping it means.
+type CmSub struct {
+	P    int     `json:"p"`
+	E    int     `json:"e"`
+	Ok   bool    `json:"ok"`
+	Kind string  `json:"kind"`
+	M    [][]int `json:"m"`
+}
+
+// BadKinds names the ways a cmap subtable can be present (accepted by the table directory of
+// the cmap table: known format number, consistent length) and yet be unusable: the formats the
+// library does not implement, and subtables of the implemented formats that break a rule of
+// their format.
+var BadKinds = []string{"f2", "f8", "f10", "f13", "f14",
+	"f12-count", "f12-order", "f12-end", "f12-gid", "f12-short",
+	"f4-oddseg", "f4-segs", "f4-overlap", "f4-endstart", "f4-range", "f4-oddlen",
+	"f6-count", "f0-short"}
+
+func be16(b []byte, v int) []byte { return append(b, byte(v>>8), byte(v)) }
+func be32(b []byte, v int) []byte { return append(b, byte(v>>24), byte(v>>16), byte(v>>8), byte(v)) }
+
+// fix16 / fix32 patch the length field of a subtable to its real length, so that the cmap table
+// directory accepts the subtable.
+func fix16(b []byte) []byte { b[2], b[3] = byte(len(b)>>8), byte(len(b)); return b }
+func fix32(b []byte) []byte {
+	b[4], b[5], b[6], b[7] = byte(len(b)>>24), byte(len(b)>>16), byte(len(b)>>8), byte(len(b))
+	return b
+}
+
+func groups12(format int, groups [][3]int, count int) []byte {
+	b := be16(nil, format)
+	b = be16(b, 0)
+	b = be32(b, 0) // length
+	b = be32(b, 0) // language
+	b = be32(b, count)
+	for _, g := range groups {
+		b = be32(be32(be32(b, g[0]), g[1]), g[2])
+	}
+	return fix32(b)
+}
+
+func seg4(segX2 int, end, start, delta, rangeOffs []int, gids []int) []byte {
+	b := be16(nil, 4)
+	b = be16(b, 0) // length
+	b = be16(b, 0) // language
+	b = be16(b, segX2)
+	b = be16(be16(be16(b, 2), 0), 0) // searchRange, entrySelector, rangeShift (not looked at)
+	for _, x := range end {
+		b = be16(b, x)
+	}
+	b = be16(b, 0)
+	for _, x := range start {
+		b = be16(b, x)
+	}
+	for _, x := range delta {
+		b = be16(b, x&0xFFFF)
+	}
+	for _, x := range rangeOffs {
+		b = be16(b, x)
+	}
+	for _, x := range gids {
+		b = be16(b, x)
+	}
+	return fix16(b)
+}
+
+// BadSubtable returns the bytes of an undecodable subtable.  Each one would map "A" to glyph 3
+// (and more) if a reader made sense of it after all - never the mapping of a usable subtable.
+func BadSubtable(kind string) ([]byte, error) {
+	switch kind {
+	case "f2": // high-byte mapping through table: not implemented
+		b := be16(be16(be16(nil, 2), 0), 0)
+		b = append(b, make([]byte, 512)...)             // subHeaderKeys: all 0
+		b = be16(be16(be16(be16(b, 65), 1), 3-65+0), 2) // subheader 0: firstCode 65, count 1, delta, rangeOffset
+		b = be16(b, 65)
+		return fix16(b), nil
+	case "f8": // mixed 16/32 bit: not implemented
+		b := be16(be16(nil, 8), 0)
+		b = be32(be32(b, 0), 0)
+		b = append(b, make([]byte, 8192)...)
+		b = be32(b, 1)
+		b = be32(be32(be32(b, 65), 65), 3)
+		return fix32(b), nil
+	case "f10": // trimmed array: not implemented
+		b := be16(be16(nil, 10), 0)
+		b = be32(be32(b, 0), 0)
+		b = be32(be32(b, 65), 1)
+		b = be16(b, 3)
+		return fix32(b), nil
+	case "f13": // many-to-one: not implemented
+		return groups12(13, [][3]int{{65, 70, 3}}, 1), nil
+	case "f14": // variation sequences: not implemented (and no character map at all)
+		b := be16(nil, 14)
+		b = be32(b, 0)
+		b = be32(b, 0)
+		b[2], b[3], b[4], b[5] = 0, 0, 0, byte(len(b))
+		return b, nil
+	case "f12-count": // numGroups does not match the length
+		return groups12(12, [][3]int{{65, 66, 3}}, 2), nil
+	case "f12-order": // groups not in increasing order
+		return groups12(12, [][3]int{{70, 71, 3}, {65, 66, 5}}, 2), nil
+	case "f12-end": // endCharCode < startCharCode
+		return groups12(12, [][3]int{{66, 65, 3}}, 1), nil
+	case "f12-gid": // glyph ids beyond any font
+		return groups12(12, [][3]int{{65, 66, 0x110000}}, 1), nil
+	case "f12-short": // shorter than its fixed header says (length is consistent, 12 bytes of header)
+		b := be16(be16(nil, 12), 0)
+		b = be32(be32(b, 0), 0)
+		return fix32(b), nil
+	case "f4-oddseg": // segCountX2 odd
+		return seg4(3, []int{66, 0xFFFF}, []int{65, 0xFFFF}, []int{3 - 65, 1}, []int{0, 0}, nil), nil
+	case "f4-segs": // more segments than the subtable holds
+		return seg4(40, []int{66, 0xFFFF}, []int{65, 0xFFFF}, []int{3 - 65, 1}, []int{0, 0}, nil), nil
+	case "f4-overlap": // segments overlap
+		return seg4(6, []int{70, 68, 0xFFFF}, []int{65, 67, 0xFFFF}, []int{3 - 65, 0, 1}, []int{0, 0, 0}, nil), nil
+	case "f4-endstart": // endCode < startCode
+		return seg4(4, []int{64, 0xFFFF}, []int{65, 0xFFFF}, []int{3 - 65, 1}, []int{0, 0}, nil), nil
+	case "f4-range": // idRangeOffset points outside the subtable
+		return seg4(4, []int{66, 0xFFFF}, []int{65, 0xFFFF}, []int{0, 1}, []int{400, 0}, []int{3, 4}), nil
+	case "f4-oddlen": // odd length
+		b := seg4(4, []int{66, 0xFFFF}, []int{65, 0xFFFF}, []int{3 - 65, 1}, []int{0, 0}, nil)
+		return fix16(append(b, 0)), nil
+	case "f6-count": // entryCount larger than the array
+		b := be16(be16(be16(nil, 6), 0), 0)
+		b = be16(be16(b, 65), 9)
+		b = be16(b, 3)
+		return fix16(b), nil
+	case "f0-short": // byte encoding table without its 256 bytes
+		b := be16(be16(be16(nil, 0), 0), 0)
+		b = append(b, make([]byte, 100)...)
+		b[6+65] = 3
+		return fix16(b), nil
+	}
+	return nil, fmt.Errorf("unknown undecodable subtable kind %q", kind)
+}
+
+// Realise replaces the kind "bad" by a concrete undecodable form, chosen by variant.
+func (fd *Font) Realise(variant int) {
+	k := variant / 3
+	for i := range fd.Cm {
+		if fd.Cm[i].Kind == "bad" {
+			fd.Cm[i].Kind = BadKinds[k%len(BadKinds)]
+			k += 7
+		}
+	}
+}
+
 // Font is the font file of a case.
 type Font struct {
-	HasFull bool    `json:"hasFull"`
-	Full    [][]int `json:"full"`
-	HasBmp  bool    `json:"hasBmp"`
-	Bmp     [][]int `json:"bmp"`
-	Widths  []int   `json:"widths"`
-	Marks   []int   `json:"marks"`
-	Gsub    Table   `json:"gsub"`
-	Gpos    Table   `json:"gpos"`
-	Kern    Kern    `json:"kern"`
-	Read    bool    `json:"read"`
+	Cm     []CmSub `json:"cm"`
+	Widths []int   `json:"widths"`
+	Marks  []int   `json:"marks"`
+	Gsub   Table   `json:"gsub"`
+	Gpos   Table   `json:"gpos"`
+	Kern   Kern    `json:"kern"`
+	Read   bool    `json:"read"`
 }
 
 // Sw is a feature-switch map (Nil: the caller passes nil).
@@ -369,9 +515,10 @@ func KernBytes(k Kern) []byte {
 
 // Built is a realised font.
 type Built struct {
-	Font *sfnt.Font
-	File []byte // the file the font was read from (nil for in-memory fonts)
-	Kind string
+	Font   *sfnt.Font
+	File   []byte // the file the font was read from (nil for in-memory fonts)
+	Kind   string
+	Relaid bool // GSUB/GPOS were re-stored by Relayout
 }
 
 // Build realises a font description.  variant selects among equivalent realisations
@@ -401,37 +548,40 @@ func Build(fd Font, variant int) (*Built, error) {
 		}
 	}
 
-	// cmap: full-Unicode subtables under (3,10) and/or (0,4), BMP ones under (3,1) and/or (0,3)
+	// cmap: the subtables as described, usable ones encoded by the library, the others by hand
 	tab := cmap.Table{}
-	which := (variant / 2) % 3 // 0: both platforms, 1: Windows only, 2: Unicode only
-	if fd.HasFull {
-		m := cmap.Format12{}
-		for _, p := range fd.Full {
-			m[uint32(p[0])] = glyph.ID(p[1])
-		}
-		data := m.Encode(0)
-		if which != 2 {
-			tab[cmap.Key{PlatformID: 3, EncodingID: 10}] = data
-		}
-		if which != 1 {
-			tab[cmap.Key{PlatformID: 0, EncodingID: 4}] = data
-		}
-	}
-	if fd.HasBmp {
-		m := cmap.Format4{}
-		for _, p := range fd.Bmp {
-			if p[0] > 0xFFFF {
-				return nil, fmt.Errorf("character %d in a BMP subtable", p[0])
+	for _, st := range fd.Cm {
+		var data []byte
+		switch {
+		case st.Ok && st.Kind == "f12":
+			m := cmap.Format12{}
+			for _, p := range st.M {
+				m[uint32(p[0])] = glyph.ID(p[1])
 			}
-			m[uint16(p[0])] = glyph.ID(p[1])
+			data = m.Encode(0)
+		case st.Ok && st.Kind == "f4":
+			m := cmap.Format4{}
+			for _, p := range st.M {
+				if p[0] > 0xFFFF {
+					return nil, fmt.Errorf("character %d in a format 4 subtable", p[0])
+				}
+				m[uint16(p[0])] = glyph.ID(p[1])
+			}
+			data = m.Encode(0)
+		case !st.Ok:
+			var err error
+			data, err = BadSubtable(st.Kind)
+			if err != nil {
+				return nil, err
+			}
+		default:
+			return nil, fmt.Errorf("cmap subtable kind %q", st.Kind)
 		}
-		data := m.Encode(0)
-		if which != 2 {
-			tab[cmap.Key{PlatformID: 3, EncodingID: 1}] = data
+		key := cmap.Key{PlatformID: uint16(st.P), EncodingID: uint16(st.E)}
+		if _, dup := tab[key]; dup {
+			return nil, fmt.Errorf("two cmap subtables for (%d,%d)", st.P, st.E)
 		}
-		if which != 1 {
-			tab[cmap.Key{PlatformID: 0, EncodingID: 3}] = data
-		}
+		tab[key] = data
 	}
 	f.CMapTable = tab
 
@@ -474,8 +624,8 @@ func Build(fd Font, variant int) (*Built, error) {
 		return nil, fmt.Errorf("Write: %v", err)
 	}
 	data := buf.Bytes()
-	if fd.Kern.Present {
-		// add a hand-built kern table to the file (the library never writes one)
+	relayout := (variant>>8)&1 == 1 && (fd.Gsub.Present || fd.Gpos.Present)
+	if fd.Kern.Present || relayout {
 		r := bytes.NewReader(data)
 		hdr, err := header.Read(r)
 		if err != nil {
@@ -489,8 +639,25 @@ func Build(fd Font, variant int) (*Built, error) {
 			}
 			tables[name] = b
 		}
-		delete(tables, "GPOS")
-		tables["kern"] = KernBytes(fd.Kern)
+		if fd.Kern.Present {
+			// add a hand-built kern table to the file (the library never writes one)
+			delete(tables, "GPOS")
+			tables["kern"] = KernBytes(fd.Kern)
+		}
+		if relayout {
+			// the same GSUB/GPOS tables, stored differently from the library's own encoder
+			rr := rand.New(rand.NewSource(int64(variant)))
+			for _, name := range []string{"GSUB", "GPOS"} {
+				if b, ok := tables[name]; ok {
+					nb, err := Relayout(b, rr)
+					if err != nil {
+						return nil, err
+					}
+					tables[name] = nb
+					res.Relaid = true
+				}
+			}
+		}
 		out := &bytes.Buffer{}
 		if _, err = header.Write(out, hdr.ScalerType, tables); err != nil {
 			return nil, fmt.Errorf("header.Write: %v", err)
